@@ -85,7 +85,9 @@ static Res run_job(const Job& j, Nest* nest){
   int rc = j.has("dbstring") ? LoadDatabaseString(id, j.db.c_str()) : LoadDatabase(id, j.db.c_str());
   if(rc==0 && !j.has("loadonly")){
     SetSelectedOutputStringOn(id,1);
-    if(defaults) SetSelectedOutputFileOn(id,1);
+    if(defaults){ const int nums[] = {1,2,3,7,40};      // the file switch is per user number
+      for(int u: nums){ SetCurrentSelectedOutputUserNumber(id,u); SetSelectedOutputFileOn(id,1); SetSelectedOutputStringOn(id,1); }
+      SetCurrentSelectedOutputUserNumber(id,1); }
     SetBasicCallback(id, basic_cb, nest ? (void*)nest : (void*)&none);   // after the load: LoadDatabase forgets the callback
     rc = RunString(id, j.input.c_str());
   } else if(rc!=0) rc += 1000;
